@@ -9,6 +9,8 @@ import (
 	"math/rand"
 	"net/http"
 	"net/url"
+	"os"
+	"path/filepath"
 	"sort"
 	"strings"
 	"sync"
@@ -947,4 +949,214 @@ func head(s string, n int) string {
 		return s[:n]
 	}
 	return s
+}
+
+// ---------------------------------------------------------------------------
+// reverse direction: long random histories, validated by spec/TraceIdpServer.tla
+
+func c19ActJSON(a c19Act) map[string]any {
+	m := map[string]any{"n": a.N}
+	switch a.N {
+	case "PutUser":
+		m["u"], m["pw"], m["ver"] = a.U, a.Pw, a.Ver
+	case "DeleteUser", "GetUser":
+		m["u"] = a.U
+	case "PutService":
+		m["svc"], m["e"] = a.Svc, a.E
+	case "DeleteService", "GetService":
+		m["svc"] = a.Svc
+	case "PutShortcut":
+		m["c"], m["e"] = a.C, a.E
+	case "DeleteShortcut":
+		m["c"] = a.C
+	case "DeleteSession":
+		m["k"] = a.K
+	case "List":
+		m["what"] = a.What
+	case "Login":
+		m["u"], m["pw"] = a.U, a.Pw
+	case "LoginCookie":
+		m["ck"] = a.Ck
+	case "SSO":
+		m["e"], m["ck"] = a.E, a.Ck
+	case "SSOLogin":
+		m["e"], m["u"], m["pw"] = a.E, a.U, a.Pw
+	case "Shortcut":
+		m["c"], m["ck"] = a.C, a.Ck
+	}
+	return m
+}
+
+func TestC19Random(t *testing.T) {
+	rep := NewReport("C19")
+	defer rep.Finish(t)
+	nHist, steps := 24, 80
+	if thorough() {
+		nHist, steps = 300, 120
+	}
+	oldNow, oldRand := saml.TimeNow, saml.RandReader
+	defer func() { saml.TimeNow, saml.RandReader = oldNow, oldRand }()
+	saml.TimeNow = goroutineNow
+	saml.RandReader = &safeRand{r: newRand("c19random-rand")}
+	users, svcs, eids, pws := []string{"u1", "u2"}, []string{"s1", "s2"}, []string{"e1", "e2"}, []string{"p1", "e"}
+	const maxSess = 2
+	type line struct {
+		A map[string]any `json:"a"`
+		R *c19Reply      `json:"r,omitempty"`
+	}
+	hists := make([][]line, nHist)
+	parallel(nHist, func(h int) {
+		rng := newRand(fmt.Sprintf("c19random/%d", h))
+		env := c19Restore(&c19Snap{data: map[string]string{}, slot: map[int]string{}})
+		// the reference meaning of the user records the driver itself wrote (to know when the model logs in)
+		pwOf := map[string]string{} // user -> "p1" | "e" | "none"; absent key = no such user
+		born := map[int]int{}       // slot -> tick of creation
+		out := []line{{A: map[string]any{"n": "Reset"}}}
+		pick := func(s []string) string { return s[rng.Intn(len(s))] }
+		cookie := func() string { return []string{"none", "forged", "k1", "k2"}[rng.Intn(4)] }
+		for s := 0; s < steps; s++ {
+			var a c19Act
+			switch rng.Intn(17) {
+			case 0, 1:
+				a = c19Act{N: "PutUser", U: pick(users), Pw: []string{"keep", "p1", "e"}[rng.Intn(3)], Ver: 1 + rng.Intn(2)}
+			case 2:
+				a = c19Act{N: "DeleteUser", U: pick(users)}
+			case 3:
+				a = c19Act{N: "GetUser", U: pick(users)}
+			case 4, 5:
+				a = c19Act{N: "PutService", Svc: pick(svcs), E: pick(eids)}
+			case 6:
+				a = c19Act{N: "DeleteService", Svc: pick(svcs)}
+			case 7:
+				a = c19Act{N: []string{"PutShortcut", "PutShortcut", "DeleteShortcut"}[rng.Intn(3)], C: "c1", E: pick(eids)}
+				if a.N == "DeleteShortcut" {
+					a.E = ""
+				}
+			case 8:
+				a = c19Act{N: "List", What: pick([]string{"users", "services", "shortcuts", "sessions"})}
+			case 9, 10:
+				a = c19Act{N: "Login", U: pick(users), Pw: pick(pws)}
+			case 11:
+				a = c19Act{N: "LoginCookie", Ck: cookie()}
+			case 12, 13:
+				a = c19Act{N: "SSO", E: pick(eids), Ck: cookie()}
+			case 14:
+				a = c19Act{N: "SSOLogin", E: pick(eids), U: pick(users), Pw: pick(pws)}
+			case 15:
+				a = c19Act{N: "Shortcut", C: "c1", Ck: cookie()}
+			case 16:
+				switch rng.Intn(4) {
+				case 0:
+					if len(born) == 0 {
+						continue
+					}
+					for k := range born {
+						a = c19Act{N: "DeleteSession", K: k}
+						break
+					}
+				case 1:
+					live := false
+					for _, b := range born {
+						if env.snap.ticks-b < 3 {
+							live = true
+						}
+					}
+					if !live {
+						continue
+					}
+					a = c19Act{N: "Tick"}
+				case 2:
+					a = c19Act{N: "Restart"}
+				default:
+					a = c19Act{N: "GetService", Svc: pick(svcs)}
+				}
+			}
+			// the model needs a free slot to log in
+			if (a.N == "Login" || a.N == "SSOLogin") && len(born) >= maxSess {
+				continue
+			}
+			switch a.N {
+			case "Tick":
+				env.snap.ticks++
+				env.now = c19Base.Add(time.Duration(env.snap.ticks) * c19TickDur)
+				out = append(out, line{A: c19ActJSON(a)})
+				continue
+			case "Restart":
+				srv, err := newIdpSrv(env.store)
+				if err != nil {
+					rep.Violation(fmt.Sprintf("C19:random:h%d:restart", h), "a server cannot be re-created over its own store: "+err.Error(), map[string]any{"history": out})
+					return
+				}
+				env.srv = srv
+				out = append(out, line{A: c19ActJSON(a)})
+				continue
+			}
+			real := env.do(a, 0, "")
+			c19RecordHashes(env.store.clone(), a)
+			modelLogsIn := (a.N == "Login" || a.N == "SSOLogin") && pwOf[a.U] == a.Pw && pwOf[a.U] != ""
+			if a.N == "SSOLogin" {
+				// the model only reaches the credentials when the SP is registered
+				modelLogsIn = modelLogsIn && real.Reply.Status != 400
+			}
+			if real.SetCookie != "" {
+				k := 1
+				for ; k <= maxSess; k++ {
+					if _, used := born[k]; !used {
+						break
+					}
+				}
+				env.snap.slot[k] = real.SetCookie
+				born[k] = env.snap.ticks
+				real.Reply.Cookie = k
+			}
+			r := real.Reply
+			out = append(out, line{A: c19ActJSON(a), R: &r})
+			rep.Eval("RandomRequest", fmt.Sprintf("h%d-%d", h, s))
+			if real.Panic != "" {
+				rep.Violation(fmt.Sprintf("C19:random:h%d:panic:%s", h, a.N), "the request did not receive a well-formed HTTP reply (handler panicked)", map[string]any{"history": out})
+				return
+			}
+			// keep the driver's notion of the reference state
+			switch a.N {
+			case "PutUser":
+				if a.Pw != "keep" {
+					pwOf[a.U] = a.Pw
+				} else if _, ok := pwOf[a.U]; !ok {
+					pwOf[a.U] = "none"
+				}
+			case "DeleteUser":
+				delete(pwOf, a.U)
+			case "DeleteSession":
+				delete(born, a.K)
+				delete(env.snap.slot, a.K)
+			}
+			if modelLogsIn && real.SetCookie == "" {
+				// the server refused a login the reference model grants: not forbidden by the statement, but the
+				// slot bookkeeping of model and driver now differ - end this history here (counted as drift)
+				rep.DriftCase(fmt.Sprintf("C19:random:h%d-%d", h, s), "a login with the current password was refused", r)
+				out = out[:len(out)-1]
+				break
+			}
+		}
+		hists[h] = out
+	})
+	f, err := os.Create(filepath.Join(workDir(), "trace.ndjson"))
+	if err != nil {
+		rep.Break("%v", err)
+		return
+	}
+	defer f.Close()
+	n := 0
+	for _, h := range hists {
+		for _, l := range h {
+			b, _ := json.Marshal(l)
+			f.Write(append(b, '\n'))
+			n++
+		}
+	}
+	if len(hists) > 0 && len(hists[0]) > 6 {
+		rep.Sample(hists[0][:6])
+	}
+	rep.Extra["random_histories"] = nHist
+	rep.Extra["random_trace_lines"] = n
 }
